@@ -31,6 +31,75 @@ def describe(steps):
     return [s[1].expr if s[0] == "exec" and hasattr(s[1], "expr") else (s[1].text if s[0] == "exec" else list(s)) for s in steps]
 
 
+def several_simulations_in_one_process(ctx):
+    """C06 on action-level runtimes: two SimulationRuntimes and, afterwards, an operation engine are built in THIS process from the
+    same job with the public builder and driven in turns; after every action each runtime's clock must equal the sum of the elapse
+    times dispatched TO THAT runtime (0 when created), every `elapsed` notification must carry the time of its elapse, and the
+    engine built last must start at 0.  (The recorded operation engines always work on a restored checkpoint, so a clock object
+    shared between stores is invisible to them.)"""
+    import random
+    from simaple.container.simulation import get_skill_components
+    from simaple.simulate.kms import get_builder
+    from lib import simenv
+    rng = random.Random(ctx.seed + 606)
+    findings, stats = [], {"runtimes": 0, "actions": 0, "engines": 0}
+    jobs = list(simenv.JOBS)
+    rng.shuffle(jobs)
+    for job in jobs[:(4 if ctx.thorough else 2)]:
+        variant = rng.choice([0, 2])
+        env = simenv.get_env(job, variant)
+
+        def new_runtime():
+            return get_builder(get_skill_components(env), env.character.action_stat).build_simulation_runtime()
+        names = simenv.skill_names(job, variant)
+        script = []
+        try:
+            rts = [{"rt": new_runtime(), "sum": 0.0, "label": "first"}]
+            stats["runtimes"] += 1
+            for step in range(40 if ctx.thorough else 24):
+                if step == 6:
+                    rts.append({"rt": new_runtime(), "sum": 0.0, "label": "second (built after the first had elapsed)"})
+                    stats["runtimes"] += 1
+                    script.append("build second runtime")
+                r = rng.choice(rts)
+                if rng.random() < 0.55:
+                    t = float(rng.choice([0, 0.25, 30, 100.5, 480, 1000, 12345.5]))
+                    evs = r["rt"].play({"name": "*", "method": "elapse", "payload": t})
+                    r["sum"] += t
+                    script.append("%s: elapse %s" % (r["label"], t))
+                    bad = [e for e in evs if e["tag"] == "global.elapsed" and e["payload"].get("time") != t]
+                    if bad:
+                        findings.append({"what": "C06: an elapsed notification does not carry the time of its elapse", "job": job, "variant": variant,
+                                         "script": script[-12:], "expected": t, "observed": bad[0]["payload"]})
+                        break
+                else:
+                    n = rng.choice(names)
+                    r["rt"].play({"name": n, "method": "use", "payload": None})
+                    script.append("%s: use %s" % (r["label"], n))
+                stats["actions"] += 1
+                for q in rts:
+                    c = q["rt"].get_viewer()("clock")
+                    if abs(c - q["sum"]) > 1e-6 * max(1.0, abs(q["sum"])):
+                        findings.append({"what": "C06: the clock of a runtime differs from the sum of the elapse times dispatched to it "
+                                                 "(several simulations in one process)", "job": job, "variant": variant, "runtime": q["label"],
+                                         "script": script[-12:], "expected": q["sum"], "observed": c})
+                        break
+                if findings:
+                    break
+            if findings:
+                break
+            eng = get_builder(get_skill_components(env), env.character.action_stat).build_operation_engine()
+            stats["engines"] += 1
+            c0 = eng.get_current_viewer()("clock")
+            if c0 != 0:
+                findings.append({"what": "C06: an operation engine built after other simulations ran starts with a non-zero clock",
+                                 "job": job, "variant": variant, "script": script[-12:], "expected": 0, "observed": c0})
+                break
+        except Exception as e:
+            ctx.log("several_simulations_in_one_process(%s): %r" % (job, e))
+    return findings, stats
+
+
 def run(ctx: Ctx, which=WHICH, props=PROPS, assume=None) -> int:
     ec.build_and_check_props(ctx, props)
     budget = ec.Budget(600 if ctx.thorough else 100)
@@ -80,6 +149,10 @@ def run(ctx: Ctx, which=WHICH, props=PROPS, assume=None) -> int:
     })
     for d in diffs:
         ctx.broken.append("model and implementation disagree: %s" % json.dumps(d, ensure_ascii=False)[:300])
+    if which == "C06":
+        rt_findings, rt_stats = several_simulations_in_one_process(ctx)
+        findings += rt_findings
+        ctx.cov["impl_search"]["several_simulations_in_one_process"] = rt_stats
     from lib import h_dispatch                      # dispatch / store layer: Props/Cxx_dispatch.v + H-dispatch
     findings += h_dispatch.hook(ctx, which)
     if findings:
